@@ -105,6 +105,8 @@ type script struct {
 	// FrameOff rotates which framing (Content-Length / chunked / EOF-delimited) the k-th
 	// non-empty response gets
 	FrameOff int `json:"frame_off,omitempty"`
+	// FailOn: every request from FailAt on is answered FailKind (not only that one)
+	FailOn bool `json:"fail_on,omitempty"`
 }
 
 type session struct {
@@ -214,7 +216,7 @@ func (sv *server) ServeHTTP(w http.ResponseWriter, r *http.Request) {
 	if s.sc.ServerLag > 0 {
 		time.Sleep(time.Duration(s.sc.ServerLag) * time.Microsecond)
 	}
-	if k == s.sc.FailAt {
+	if k == s.sc.FailAt || (s.sc.FailOn && s.sc.FailAt >= 0 && k > s.sc.FailAt) {
 		s.mu.Lock()
 		s.allOK = false
 		s.mu.Unlock()
@@ -663,6 +665,18 @@ func runSession(sv *server, cf base.ClientFactory, s *session, ca any) {
 	wg.Wait()
 	// polling stops: the worker observes the close at a loop head chosen by a fair select
 	time.Sleep(2 * time.Millisecond)
+	if closeKind == "after-fail" && sc.FailKind == "non200" {
+		// Close came while the worker sat in roundTrip's retry wait (or was about to enter it
+		// with the close already visible): it must leave at once — NO request may reach the
+		// server after Close has returned (observation window: 400 ms, bounded)
+		time.Sleep(400 * time.Millisecond)
+		s.mu.Lock()
+		after := s.reqAfter
+		s.mu.Unlock()
+		if after > 0 {
+			s.viol("request-after-close-during-retry-wait", fmt.Sprintf("the server answered request no. %d with a non-200 status, the application called Close while the worker was in the retry wait, Close returned — and %d more request(s) reached the server within 400 ms", sc.FailAt, after))
+		}
+	}
 	s.mu.Lock()
 	after := s.reqAfter
 	s.mu.Unlock()
@@ -917,6 +931,7 @@ func genScript(rng *vlib.Rng, i int) script {
 	if rng.Intn(12) == 0 {
 		sc.FailAt = rng.Range(1, 4)
 		sc.FailKind = vlib.Pick(rng, []string{"fail", "non200"})
+		sc.FailOn = rng.Bool()
 		if sc.Close == "drained" {
 			sc.Close = "after-fail"
 		}
@@ -1022,6 +1037,8 @@ func closeEverywhere() []script {
 	out = append(out,
 		script{Name: "three-max-bodies", Writes: []int{196608, 196608, 1}, ReadSizes: []int{4096}, Reads: -1, Resp: []int{65536}, Down: 200000, FailAt: -1, Close: "drained"},
 		script{Name: "fail-at-2", Writes: []int{100, 100, 100, 100}, ReadSizes: []int{4096}, Reads: -1, Resp: []int{10}, Down: 100, FailAt: 2, FailKind: "fail", Close: "after-fail"},
+		script{Name: "non200-from-1-close-in-retry-wait", Writes: []int{100}, ReadSizes: []int{4096}, Reads: -1, Resp: []int{10}, Down: 10, FailAt: 1, FailKind: "non200", FailOn: true, Close: "after-fail"},
+		script{Name: "non200-from-2-close-in-retry-wait", Writes: []int{7, 70000, 3}, ReadSizes: []int{100}, Reads: -1, Resp: []int{0, 5}, Down: 50, FailAt: 2, FailKind: "non200", FailOn: true, Close: "after-fail"},
 		script{Name: "non200-at-1", Writes: []int{100, 100}, ReadSizes: []int{4096}, Reads: -1, Resp: []int{10}, Down: 100, FailAt: 1, FailKind: "non200", Close: "after-fail"},
 		script{Name: "non200-then-close-linger", Writes: []int{100}, ReadSizes: []int{4096}, Reads: -1, Resp: []int{10}, Down: 10, FailAt: 1, FailKind: "non200", Close: "after-fail", LingerMs: 31000},
 	)
